@@ -391,9 +391,9 @@ def updateRdata (thr off : Nat) (type : Nat) (d1 : Bytes) (namePtr dataEnd : Nat
     ok d'
   else ok d1
 
-/-- the `for` loop of `DNS::update_records` -/
-def updateLoop (thr off : Nat) : Nat → Bytes → Nat → Out Bytes
-  | 0, data, _ => ok data
+/-- the `for` loop of `DNS::update_records`; also returns where `ptr` ended up (the C++ discards it) -/
+def updateLoop (thr off : Nat) : Nat → Bytes → Nat → Out (Bytes × Nat)
+  | 0, data, p => ok (data, p)
   | n + 1, data, ptr => do
     let (d1, p1) ← updateDname thr off (data.length - ptr) data ptr data.length
     if d1.length < p1 + 10 then throw .malformedPacket else do
@@ -414,7 +414,7 @@ def updateLoop (thr off : Nat) : Nat → Bytes → Nat → Out Bytes
 /-- `DNS::update_records(data, section_start, num_records, threshold, offset)` -/
 def updateRecords (data : Bytes) (start count thr off : Nat) : Out (Bytes × Nat) :=
   if start < data.length then do
-    let d ← updateLoop thr off count data start
+    let (d, _) ← updateLoop thr off count data start
     ok (d, start + off)
   else ok (data, start + off)
 
